@@ -2131,6 +2131,16 @@ class CatchExceptionDataset(Dataset):
             LOG.info(f'{self.__class__.__name__} filtered {catched_count} of {total_count} examples (catched expections: {types}).')
 
 
+class _FilteredExampleMarker:
+    """
+    Returned by a prefetch worker instead of an example that raised one of the
+    exceptions in `catch_filter_exception`. It is an instance of a module level
+    class (and not `object()`), so that it can be recognized after it was
+    pickled by one of the process backends.
+    """
+    pass
+
+
 class PrefetchDataset(Dataset):
     def __init__(
             self,
@@ -2226,7 +2236,7 @@ class PrefetchDataset(Dataset):
             else:
                 catch_filter_exception = self.catch_filter_exception
 
-            unique_object = object()
+            unique_object = _FilteredExampleMarker()
 
             if with_key:
                 def catcher(key):
@@ -2251,7 +2261,7 @@ class PrefetchDataset(Dataset):
                 backend=self.backend,
             ):
                 total_count += 1
-                if data is unique_object:
+                if isinstance(data, _FilteredExampleMarker):
                     catched_count += 1
                 else:
                     yield data
